@@ -155,3 +155,19 @@ func scenariosFor(prop string) []scn {
 	}
 	return out
 }
+
+
+// preemptScenariosFor lists the scenarios of the preemptive tier (bound = deviations explored around each preemption).
+func preemptScenariosFor(prop string) []scn {
+	var out []scn
+	v1 := func(p flowParams, q, t int) { p.Engine = "v1"; out = append(out, scn{p, q, t}) }
+	v2 := func(p flowParams, q, t int) { p.Engine = "v2"; out = append(out, scn{p, q, t}) }
+	switch prop {
+	case "C06":
+		v1(flowParams{Sources: 1, Records: 2, Batch: 1, Dests: 1, AckMenu: []string{"ok", "defer"}, Stop: "stopwait"}, 1, 2)
+		v2(flowParams{Sources: 1, Records: 2, Batch: 1, Dests: 1, AckMenu: []string{"ok", "defer"}, Stop: "stopwait"}, 1, 2)
+	case "C01", "C04":
+		v1(flowParams{Sources: 1, Records: 2, Batch: 1, Dests: 1, AckMenu: []string{"ok", "defer", "nack"}, Stop: ""}, 1, 2)
+	}
+	return out
+}
